@@ -751,9 +751,13 @@ def global_slot_index_rule(F, R):
                     "`get` with a handled None. A slot number is handed out when a definition is compiled and the table only grows "
                     "when it is executed: code of the same piece that runs in between reads past the end")
     n = 0
+    from . import shared as shared_
+    reach_ = shared_.script_reach(F)
     for name, fn in sorted(F.fns.items()):
         if not name.startswith("steel::env::") or fn.d["kind"] == "Closure":
             continue
+        if name not in reach_:
+            continue        # not reachable from the engine (dead helper)
         nargs = fn.d.get("nargs") or 0
         params = ["_%d" % k for k in range(1, nargs + 1) if k - 1 < len(fn.d.get("in") or []) and (fn.d["in"][k - 1] == "usize")]
         if not params:
